@@ -2,6 +2,7 @@
 from vlib import driver_eval
 
 _cache = {}
+DRIVER_FAILURES = []     # lengths (events) of the traces the driver could not evaluate
 
 
 def encode(tr):
@@ -20,7 +21,17 @@ def validate_many(traces):
     idx = [i for i, t in enumerate(traces) if t.outcome == 1 and t.cfg.drain == 1]
     res = [None] * len(traces)
     if not idx: return res
-    outs = driver_eval([encode(traces[i]) for i in idx])
+    try:
+        outs = driver_eval([encode(traces[i]) for i in idx])
+    except RuntimeError:
+        # the driver died on one of the traces (a deep recursion in the extracted code on a very long trace): evaluate them one
+        # by one; a trace the driver cannot take is "not applicable" (-2), counted in DRIVER_FAILURES and reported in the evidence
+        outs = []
+        for i in idx:
+            try:
+                outs.append(driver_eval([encode(traces[i])])[0])
+            except RuntimeError:
+                DRIVER_FAILURES.append(len(traces[i].events)); outs.append("-2")
     for i, o in zip(idx, outs):
         v = int(o.split()[0])
         if v == -1: res[i] = True
